@@ -472,7 +472,7 @@ def run(rep, tier, seed):
         dc = fns.get("check_decl_constraints")
         if dc is not None:
             ccl = [c for c in synq.calls(dc) if c["func"]["path"]["s"].endswith("check_constraints_list")]
-            arg = synq.expr_skel(ccl[0]["args"][3]) if ccl and len(ccl[0]["args"]) > 3 else ""
+            arg = synq.sources_of_arg(dc, ccl[0]["args"][3]) if ccl and len(ccl[0]["args"]) > 3 else ""
             if not re.search(r"iter_parents\(|iter_parents_and_self\(|iter_constraints\(", arg):
                 rep.add("C06|analyzer|duplicate-constraints-ancestors", "duplicate constraints are not checked against all "
                         "ancestors", "analyzer.rs:check_decl_constraints")
